@@ -15,6 +15,8 @@
 package sparseindex
 
 import (
+	"math"
+
 	"github.com/openGemini/openGemini/engine/hybridqp"
 	"github.com/openGemini/openGemini/lib/binaryfilterfunc"
 	"github.com/openGemini/openGemini/lib/errno"
@@ -107,17 +109,46 @@ func (kc *KeyConditionImpl) genRPNElementByVal(
 ) error {
 	rpnElem := &RPNElement{keyColumn: idx}
 	value := NewFieldRef(cols, idx, 0)
+	// The literal is stored in a column of the KEY's type, so it must be a value of that type: an integer literal
+	// compared with a float key (f = 1) and an integral number literal compared with an integer key are converted when the
+	// conversion is exact. Any other combination cannot be bounded by the index: the predicate may be true anywhere.
+	keyType := value.cols[idx].dataType
+	bounded := true
 	switch rhs := rhs.(type) {
 	case *influxql.StringLiteral:
-		value.cols[idx].column.AppendString(rhs.Val)
+		if keyType == influx.Field_Type_String || keyType == influx.Field_Type_Tag {
+			value.cols[idx].column.AppendString(rhs.Val)
+		} else {
+			bounded = false
+		}
 	case *influxql.NumberLiteral:
-		value.cols[idx].column.AppendFloat(rhs.Val)
+		if keyType == influx.Field_Type_Float {
+			value.cols[idx].column.AppendFloat(rhs.Val)
+		} else if v := int64(rhs.Val); keyType == influx.Field_Type_Int && math.Abs(rhs.Val) < (1<<53) && float64(v) == rhs.Val {
+			value.cols[idx].column.AppendInteger(v)
+		} else {
+			bounded = false
+		}
 	case *influxql.IntegerLiteral:
-		value.cols[idx].column.AppendInteger(rhs.Val)
+		if keyType == influx.Field_Type_Int {
+			value.cols[idx].column.AppendInteger(rhs.Val)
+		} else if keyType == influx.Field_Type_Float && rhs.Val > -(1<<53) && rhs.Val < (1<<53) {
+			value.cols[idx].column.AppendFloat(float64(rhs.Val))
+		} else {
+			bounded = false
+		}
 	case *influxql.BooleanLiteral:
-		value.cols[idx].column.AppendBoolean(rhs.Val)
+		if keyType == influx.Field_Type_Boolean {
+			value.cols[idx].column.AppendBoolean(rhs.Val)
+		} else {
+			bounded = false
+		}
 	default:
 		return errno.NewError(errno.ErrRPNElement, rhs)
+	}
+	if !bounded {
+		kc.rpn = append(kc.rpn, &RPNElement{op: rpn.AlwaysTrue})
+		return nil
 	}
 	if value.cols[idx].column.Len > 1 {
 		value.row = value.cols[idx].column.Len - 1
